@@ -1,12 +1,16 @@
-import OrsoVerif.Generated.SchemaFns
 import OrsoVerif.Model.SchemaOps
+import OrsoVerif.Lemmas.SchemaOps
 /-!
-# C17 — the functions generated from `orso/schema.py` equal the hand-written model
+# C17 — general lemmas that tie the *shapes* emitted by `harness/pystmt.py` to the model
 
-`Gen.SchemaFns.*` is produced by `harness/pystmt.py` from the source of the working tree on every run.
-The lemmas here relate the shapes the translator emits (`List.find?`, `zipIdx`, `foldl`, `flatMap`) to
-the structurally recursive definitions of `Model/SchemaOps.lean`; `Props/C17.lean` states the
-equalities themselves.
+`Gen.SchemaFns.*` is produced from `orso/schema.py` on every run.  Nothing here mentions a generated
+definition (so this file builds whatever the source says); `Props/C17.lean` states and proves the
+equalities `Gen.SchemaFns.f = model f`.
+
+The lemmas are *semantic* about the pieces a translation is made of: they take the loop's step function or
+the search predicate as a variable together with a pointwise hypothesis (`∀ st c, step st c = …`,
+`∀ c, p c = decide (c.name = k)`), which `simp` discharges for whatever spelling the source uses (`not x in` /
+`x not in`, `continue` / nested `if`, renamed locals, swapped operands of `==`).
 -/
 set_option linter.unusedSectionVars false
 namespace SchemaFnsLemmas
@@ -14,19 +18,10 @@ open SchemaOps
 
 variable {ι ν : Type} [DecidableEq ι] [DecidableEq ν]
 
-theorem all_names_eq (c : Col ι ν) : Gen.SchemaFns.all_names c = c.allNames := by
-  unfold Gen.SchemaFns.all_names Col.allNames
-  cases h : c.aliases with
-  | none => simp
-  | some as => simp [Gen.SchemaOps.aliasesFirst]
+/-! ### `find_column` -/
 
-theorem findCol_eq_find? (norm : ν → ν) (k : ν) (cols : List (Col ι ν)) :
-    findCol norm k cols = cols.find? (fun c => c.bears norm k) := by
-  induction cols with
-  | nil => rfl
-  | cons c cs ih =>
-    simp only [findCol, List.find?_cons]
-    cases h : c.bears norm k <;> simp [ih]
+theorem bears_id (c : Col ι ν) (k : ν) : c.bears id k = decide (k ∈ c.allNames) := by
+  simp [Col.bears]
 
 theorem findCol_id (k : ν) (cols : List (Col ι ν)) :
     findCol id k cols = cols.find? (fun c => decide (k ∈ c.allNames)) := by
@@ -40,9 +35,19 @@ theorem findCol_norm (norm : ν → ν) (k : ν) (cols : List (Col ι ν)) :
   rw [findCol_eq_find?]
   rfl
 
+/-- a search whose predicate is pointwise the "bears the key" test is the model's lookup -/
+theorem find?_eq_findCol (norm : ν → ν) (k : ν) (p : Col ι ν → Bool) (cols : List (Col ι ν))
+    (hp : ∀ c, p c = c.bears norm k) : cols.find? p = findCol norm k cols := by
+  rw [findCol_eq_find?]
+  congr 1
+  funext c
+  exact hp c
+
 theorem match_find?_id {α : Type} (o : Option α) :
     (match o with | some x => some x | none => none) = o := by
   cases o <;> rfl
+
+/-! ### `pop_column` -/
 
 /-- the `zipIdx`/`find?`/`pop(idx)` shape of `pop_column`, for a column list that follows a prefix -/
 theorem pop_shape (k : ν) (cols pre : List (Col ι ν)) :
@@ -62,6 +67,66 @@ theorem pop_shape (k : ν) (cols pre : List (Col ι ν)) :
       simp only [h, decide_false, if_false]
       simpa using this
 
+/-- `enumerate` + first match, with any spelling `p` of the test "is named `k`": a hit `(c, i)` is the model's
+removal — `cols[i]` is `c`, the first column named `k`, and erasing position `i` leaves what the model leaves. -/
+theorem pop_of_zipIdx (k : ν) (p : Col ι ν × Nat → Bool) (hp : ∀ x, p x = decide (x.1.name = k))
+    (cols : List (Col ι ν)) :
+    (∀ c i, cols.zipIdx.find? p = some (c, i) →
+        cols[i]? = some c ∧ popCol k cols = (some c, cols.eraseIdx i))
+    ∧ (cols.zipIdx.find? p = none → popCol k cols = (none, cols)) := by
+  have hp' : p = (fun x => decide (x.1.name = k)) := funext hp
+  subst hp'
+  have h := pop_shape k cols []
+  simp only [List.length_nil, List.nil_append] at h
+  constructor
+  · intro c i hci
+    rw [hci] at h
+    have h' : (cols[i]?, cols.eraseIdx i) = ((popCol k cols).1, (popCol k cols).2) := h
+    have h1 : (popCol k cols).1 = cols[i]? := (congrArg Prod.fst h').symm
+    have h2 : (popCol k cols).2 = cols.eraseIdx i := (congrArg Prod.snd h').symm
+    have hm := List.mem_of_find?_eq_some hci
+    have hi := List.mem_zipIdx hm
+    have hc : cols[i]? = some c := by
+      have := hi.2.2
+      simp only [Nat.sub_zero] at this
+      have hlt : i < cols.length := by have := hi.2.1; omega
+      rw [List.getElem?_eq_getElem hlt, this]
+    refine ⟨hc, ?_⟩
+    rw [← hc, ← h1, ← h2]
+  · intro hn
+    rw [hn] at h
+    have h' : ((none : Option (Col ι ν)), cols) = ((popCol k cols).1, (popCol k cols).2) := h
+    exact h'.symm
+
+/-- first match + `list.remove(column)`, with any spelling `p` of the test "is named `k`" -/
+theorem pop_of_find (k : ν) (p : Col ι ν → Bool) (hp : ∀ c, p c = decide (c.name = k)) (cols : List (Col ι ν)) :
+    (∀ c, cols.find? p = some c → popCol k cols = (some c, cols.erase c))
+    ∧ (cols.find? p = none → popCol k cols = (none, cols)) := by
+  have hp' : p = (fun c => decide (c.name = k)) := funext hp
+  subst hp'
+  induction cols with
+  | nil => simp [popCol]
+  | cons x xs ih =>
+    by_cases hx : x.name = k
+    · simp [popCol, hx]
+    · constructor
+      · intro c hc
+        simp only [List.find?_cons, hx, decide_false] at hc
+        have hne : x ≠ c := by
+          intro e
+          have := List.find?_some hc
+          simp only [decide_eq_true_eq] at this
+          exact hx (e ▸ this)
+        have h1 := ih.1 c hc
+        simp only [popCol, hx, if_false, h1]
+        rw [List.erase_cons_tail (by simpa using hne)]
+      · intro hn
+        simp only [List.find?_cons, hx, decide_false] at hn
+        have h1 := ih.2 hn
+        simp [popCol, hx, h1]
+
+/-! ### `__add__` -/
+
 theorem unionLoop_eq_foldl (cs : List (Col ι ν)) (seen : List ι) (acc : List (Col ι ν)) :
     (cs.foldl (fun (st : List ι × List (Col ι ν)) column =>
         if column.identity ∉ st.1 then (st.1 ++ [column.identity], st.2 ++ [column]) else (st.1, st.2))
@@ -75,6 +140,59 @@ theorem unionLoop_eq_foldl (cs : List (Col ι ν)) (seen : List ι) (acc : List 
       exact ih seen acc
     · simp only [h, not_false_eq_true, if_true, if_false]
       exact ih _ _
+
+/-- The accumulating loop of `__add__` with *any* step function that, pointwise, skips a column whose identity
+was seen and otherwise records the identity and appends the column: both components of the final state. -/
+theorem foldl_union (step : List ι × List (Col ι ν) → Col ι ν → List ι × List (Col ι ν))
+    (hstep : ∀ st c, step st c = if c.identity ∈ st.1 then st else (st.1 ++ [c.identity], st.2 ++ [c]))
+    (cs : List (Col ι ν)) (seen : List ι) (acc : List (Col ι ν)) :
+    cs.foldl step (seen, acc) = (seen ++ ids (news seen cs), acc ++ news seen cs) := by
+  induction cs generalizing seen acc with
+  | nil => simp [news, ids]
+  | cons c cs ih =>
+    simp only [List.foldl_cons, hstep, news]
+    by_cases h : c.identity ∈ seen
+    · simp only [h, if_true]
+      exact ih seen acc
+    · simp only [h, if_false]
+      rw [ih]
+      simp [ids]
+
+/-- the same loop when the state is written (new_columns, seen) -/
+theorem foldl_union_swapped (step : List (Col ι ν) × List ι → Col ι ν → List (Col ι ν) × List ι)
+    (hstep : ∀ st c, step st c = if c.identity ∈ st.2 then st else (st.1 ++ [c], st.2 ++ [c.identity]))
+    (cs : List (Col ι ν)) (seen : List ι) (acc : List (Col ι ν)) :
+    cs.foldl step (acc, seen) = (acc ++ news seen cs, seen ++ ids (news seen cs)) := by
+  induction cs generalizing seen acc with
+  | nil => simp [news, ids]
+  | cons c cs ih =>
+    simp only [List.foldl_cons, hstep, news]
+    by_cases h : c.identity ∈ seen
+    · simp only [h, if_true]
+      exact ih seen acc
+    · simp only [h, if_false]
+      rw [ih]
+      simp [ids]
+
+theorem union_eq (a b : Schema ι ν) :
+    union a b = { name := a.name, aliases := a.aliases, columns := a.columns ++ news (ids a.columns) b.columns } := by
+  simp [union, unionLoop_eq]
+
+/-! ### accumulating loops that are maps -/
+
+theorem foldl_append_singleton {α β : Type} (f : α → β) (step : List β → α → List β)
+    (hstep : ∀ acc x, step acc x = acc ++ [f x]) (l : List α) (init : List β) :
+    l.foldl step init = init ++ l.map f := by
+  induction l generalizing init with
+  | nil => simp
+  | cons x xs ih => simp [List.foldl_cons, hstep, ih]
+
+theorem foldl_append_list {α β : Type} (f : α → List β) (step : List β → α → List β)
+    (hstep : ∀ acc x, step acc x = acc ++ f x) (l : List α) (init : List β) :
+    l.foldl step init = init ++ l.flatMap f := by
+  induction l generalizing init with
+  | nil => simp
+  | cons x xs ih => simp [List.foldl_cons, hstep, ih, List.flatMap_cons]
 
 theorem allColumnNames_eq_flatMap (cols : List (Col ι ν)) :
     allColumnNames cols = cols.flatMap (fun c => c.allNames) := by
